@@ -675,6 +675,16 @@ func (g *gen) exprDepth() int {
 func (g *gen) lineStmt() Stmt {
 	g.lineNo++
 	r := g.rnd
+	if (g.cfg.Faults > 0 || g.cfg.Markup > 0 || g.cfg.LineConds > 0) && r.Intn(25) == 0 {
+		// a line whose text, once its expressions are evaluated, is nothing but whitespace (or nothing at all)
+		empty := func() *Expr {
+			if r.Intn(2) == 0 {
+				return eStr("")
+			}
+			return eCall("p1", eStr(""))
+		}
+		return Stmt{K: "line", Text: [][]Part{{{E: empty()}, {Lit: " "}, {E: empty()}}, {{E: empty()}}, {{E: empty()}, {Lit: "  "}, {E: eStr(" ")}}}[r.Intn(3)]}
+	}
 	parts := []Part{{Lit: fmt.Sprintf("L%d", g.lineNo)}}
 	n := r.Intn(3)
 	if g.cfg.Huge && r.Intn(10) == 0 {
@@ -963,7 +973,9 @@ func (g *gen) stmts(depth int, node int) []Stmt {
 				e = eBin("add", eStr("N"), eCall("string", eBin("mod", eCall("visited_count", eStr(of)), eNum(len(g.titles), 1))))
 			}
 			if cfg.Faults > 0 && r.Float64() < cfg.Faults || r.Float64() < cfg.JumpFaults {
-				e = []*Expr{eStr("NoSuchNode"), eNum(3, 1), eBin("add", eStr("No"), eStr("Node")), eCall("boom"), eVar("nosuchvar")}[r.Intn(5)]
+				// (unknown names that sort before, between and after every node title)
+				e = []*Expr{eStr("NoSuchNode"), eNum(3, 1), eBin("add", eStr("No"), eStr("Node")), eCall("boom"), eVar("nosuchvar"),
+					eStr("Aaa"), eStr("Zzzz"), eStr("zz_last"), eBin("add", eStr("~"), eStr("tilde")), eStr("A0")}[r.Intn(10)]
 			}
 			out = append(out, Stmt{K: "jump", E: e})
 			lastWasOpts = false
